@@ -323,7 +323,7 @@ def Bi(df, asof = None):
     if asof is None or is_bi(df):
         return df
     if is_series(df):
-        df = pd.DataFrame(df, columns = [_series])
+        df = df.to_frame(_series) ## not pd.DataFrame(df, columns = [_series]): for a series that has a name that SELECTS a missing column and leaves no row
     else:
         df = df.copy()
     if asof == 'shift':
